@@ -337,7 +337,7 @@ def _no_pattern_columns(col, rule="C14.R2"):
         col.add(rule, f"{cls}.{meth}#column-items-not-matched-as-patterns", not uses, sx.loc(uses[0]) if uses else sx.loc(sx.fn),
                 "requested column items go to the name lookup / expression evaluation as they are; none is expanded as a regular expression "
                 "over the column names (an expression such as 'a+b' would silently select a column named 'aab')",
-                S.show(uses[0].term)[:100] if uses else "")
+                S.show(uses[0].term)[:100] if uses else "", positive=True)
 
 
 def _index_forced(col, rule="C14.R3"):
